@@ -69,6 +69,55 @@ func genStream(r *gen.Rand, cfg gen.ProgCfg, files map[string]string, maxMerges 
 		prev = append(prev, id)
 		prevTrees = append(prevTrees, doc)
 	}
+	// cross-document references in either direction (a forward reference is
+	// evaluated while its target is still unevaluated), some of them at
+	// subtrees that themselves hold directives
+	if nBase >= 2 && r.Chance(0.5) {
+		src := r.Intn(nBase)
+		dst := r.Intn(nBase)
+		if dst == src {
+			dst = (src + 1) % nBase
+		}
+		sm, ok1 := prevTrees[src].(map[string]any)
+		dm, ok2 := prevTrees[dst].(map[string]any)
+		if ok1 && ok2 {
+			var keys, mapKeys []string
+			for _, k := range gen.SortedKeys(dm) {
+				if strings.HasPrefix(k, "$") || strings.Contains(k, ".") || k == "id" {
+					continue
+				}
+				keys = append(keys, k)
+				if _, isMap := dm[k].(map[string]any); isMap {
+					mapKeys = append(mapKeys, k)
+				}
+			}
+			if len(mapKeys) > 0 && r.Chance(0.5) {
+				// a template in the target that merges one of its siblings
+				dm["tmpl"] = map[string]any{"$merge": gen.PickAny(r, mapKeys), "tmpl_own": 1}
+				keys = append(keys, "tmpl")
+				if r.Chance(0.7) {
+					keys = []string{"tmpl"}
+				}
+			}
+			if len(keys) > 0 {
+				k := gen.PickAny(r, keys)
+				pat := map[string]any{"id": fmt.Sprintf("d%d", dst)}
+				switch r.Intn(5) {
+				case 0:
+					sm["xref2"] = map[string]any{"$replace": map[string]any{"$match": pat, "$path": k}}
+				case 1:
+					sm["xref2"] = map[string]any{"$replace": []any{pat, k}}
+				case 2:
+					sm["xref2"] = map[string]any{"$merge": map[string]any{"$match": pat, "$path": k}, "local": 1}
+				case 3:
+					sm["xref2"] = fmt.Sprintf("$replace:[{id: d%d}, %s]", dst, k)
+				default:
+					sm["xref2"] = fmt.Sprintf("$merge:[{id: d%d}, %s]", dst, k)
+				}
+				planted = append(planted, "crossdoc-any-direction")
+			}
+		}
+	}
 	// further layers
 	for l := 1; l <= r.Range(0, 2); l++ {
 		var ids []string
